@@ -1,5 +1,6 @@
 /- Line-protocol handlers for C14 (occlusion / mismatch filling): model AND spec evaluation. -/
 import PandoraModel.Model.Interp
+import PandoraModel.Model.InterpRepaired
 
 namespace Pandora.Driver.C14
 open Lean (Json)
@@ -42,6 +43,20 @@ def wfJson (meth : Method) (off : Nat) (a : DMap) : Json :=
          ("no_stale_fill", Json.bool (noStaleFill meth a)), ("border_clean", Json.bool (borderClean off a)),
          ("wf", Json.bool (wf meth off a))]
 
+def variantOfJson (j : Json) : Option Repaired.Variant :=
+  match fieldD j "variant" (Json.str "") with
+  | Json.str "as_coded_r" => some { guard := false, bitops := false }
+  | Json.str "guard" => some { guard := true, bitops := false }
+  | Json.str "bitops" => some { guard := false, bitops := true }
+  | Json.str "guard+bitops" => some { guard := true, bitops := true }
+  | _ => none
+
+/-- the repaired variants (executable only), first pass tabulated once -/
+def runVariant (v : Repaired.Variant) (meth : Method) (off : Nat) (a : DMap) : DMap :=
+  match meth with
+  | .mccnn => maskBorder off (Repaired.lift (Repaired.mismMcPixel v) (materialise (Repaired.lift (Repaired.occlMcPixel v) a)))
+  | .sgm => Repaired.lift (Repaired.occlSgmPixel v) (materialise (Repaired.lift (Repaired.mismSgmPixel v) a))
+
 /-- the whole `interpolated_disparity` of the model, the map between the two passes, the situation
     (`trigger`) of every pixel -/
 def run (j : Json) : Except String Json := do
@@ -56,10 +71,13 @@ def run (j : Json) : Except String Json := do
     | Json.str "direct" => true
     | Json.str "materialised" => false
     | _ => a.rows * a.cols ≤ 120
-  let out := if via then interpolate meth off a else
-    match meth with
-    | .mccnn => maskBorder off (mismMc mid)
-    | .sgm => occlSgm mid
+  let out := match variantOfJson j with
+    | some v => if via then Repaired.interpolate v meth off a else runVariant v meth off a
+    | none =>
+      if via then interpolate meth off a else
+      match meth with
+      | .mccnn => maskBorder off (mismMc mid)
+      | .sgm => occlSgm mid
   let trig := tab a fun r c => Json.str (triggerAt meth a mid r c)
   let kinds := tab a fun r c => Json.str (match kindOf meth a r c with
     | .none => "" | .occl => "occl" | .mism => "mism" | .mismAsOccl => "mism_as_occl")
@@ -71,6 +89,12 @@ def run (j : Json) : Except String Json := do
 def kernel (j : Json) : Except String Json := do
   let k ← field j "kernel" >>= strOfJson
   let a ← dmapOfJson j "disp" "flag"
+  match variantOfJson j, k with
+  | some v, "occlusion_mc_cnn" => return mkObj (dmapToJson (Repaired.lift (Repaired.occlMcPixel v) a))
+  | some v, "mismatch_mc_cnn" => return mkObj (dmapToJson (Repaired.lift (Repaired.mismMcPixel v) a))
+  | some v, "mismatch_sgm" => return mkObj (dmapToJson (Repaired.lift (Repaired.mismSgmPixel v) a))
+  | some v, "occlusion_sgm" => return mkObj (dmapToJson (Repaired.lift (Repaired.occlSgmPixel v) a))
+  | _, _ => pure ()
   match k with
   | "occlusion_mc_cnn" => return mkObj (dmapToJson (occlMc a))
   | "mismatch_mc_cnn" => return mkObj (dmapToJson (mismMc a))
